@@ -7,8 +7,9 @@
        target     = (0 r t) | (1 a) | (2 a r t) | (3 r) | (4 d) | (5 (subs)) Multi | (6 (subs)) Composite
                   | (7 (subs)) Directional | (8) DataKey | (9) AnnotationData | (10 r b e) | (11 b e with_text)
        value      = (0) | (1 text) | (2 bool) | (3 int) | (4 quarters) | (5 k) NaN/inf/-inf | (6 (values)) | (7 rfc3339)
-     config = (ann_iri set_iri res_iri (extra_context ...) generated|-1 generator ((uri prefix) ...) template|-1)
-     cases  = ((a impl_string|-1 ) ...)            one per exported annotation
+     config = (ann_iri set_iri res_iri (extra_context ...) auto_generated auto_generator ((uri prefix) ...) template|-1)
+     cases  = ((a impl_string|-1 timestamp) ...)   one per exported annotation; timestamp = what this
+                                                   call wrote as automatic "generated" value
    per case four sub-cases:
      1 the property: tree of the export (as a JSON consumer sees it: members sorted, last
        duplicate wins)            impl: serde_json on the real output;  model: parse_json on the
@@ -102,7 +103,7 @@ Definition config_of (x : sx) : config :=
      c_set_iri := str_of (sx_nth 1 x);
      c_res_iri := str_of (sx_nth 2 x);
      c_extra_context := map str_of (sx_list (sx_nth 3 x));
-     c_generated := ostr_of (sx_nth 4 x);
+     c_generated := None;      (* set per case: every export call writes its own timestamp *)
      c_generator := sx_bool (sx_nth 5 x);
      c_namespaces := map (fun p => (str_of (sx_nth 0 p), str_of (sx_nth 1 p))) (sx_list (sx_nth 6 x));
      c_template := ostr_of (sx_nth 7 x) |}.
@@ -236,8 +237,14 @@ Definition targets_sx (o : option (list (str * json * json))) : sx :=
   | Some l => L (map (fun t => match t with (src, b, e) => L [of_Ns src; tree_sx b; tree_sx e] end) l)
   end.
 
-Definition run_case (st : storev) (c : config) (x : sx) : list sx :=
+Definition set_generated (c : config) (g : option str) : config :=
+  {| c_ann_iri := c_ann_iri c; c_set_iri := c_set_iri c; c_res_iri := c_res_iri c;
+     c_extra_context := c_extra_context c; c_generated := g; c_generator := c_generator c;
+     c_namespaces := c_namespaces c; c_template := c_template c |}.
+
+Definition run_case (st : storev) (c0 : config) (auto_generated : bool) (x : sx) : list sx :=
   let a := sx_nat (sx_nth 0 x) in
+  let c := if auto_generated then set_generated c0 (Some (str_of (sx_nth 2 x))) else c0 in
   let impl := ostr_of (sx_nth 1 x) in
   let model := to_webannotation st c a in
   let m1 := obs_string false model in
@@ -263,4 +270,4 @@ Definition run_case (st : storev) (c : config) (x : sx) : list sx :=
 Definition run_C17 (x : sx) : sx :=
   let st := store_of (sx_nth 0 x) in
   let c := config_of (sx_nth 1 x) in
-  L (flat_map (run_case st c) (sx_list (sx_nth 2 x))).
+  L (flat_map (run_case st c (sx_bool (sx_nth 4 (sx_nth 1 x)))) (sx_list (sx_nth 2 x))).
